@@ -51,6 +51,25 @@ let replay_trace (algo : string) (eb : bool) (ev : (int * int * int) list) =
   let ebasis = if eb then Some (lvl_basis 0) else None in
   exact_solver_gen otest itest float_solve basis_status ebasis (nat_of_int 12) (if algo = "D" then DualS else PrimalS)
 
+(* ---- C15: apply a verified reformulation to a user LP -------------------------------------
+   Q <id> xform <kind> <args...> ; ULP block
+   kinds: negobj | scalerow i l | duprow i | redundant i d | spliteq i | permrows i0 i1 .. | subst a0 t0 a1 t1 ...
+   answer: A <id> ok <neg 0|1> <b> <ncols> <nrows>   followed by the LP block (LP/COL/ROW lines) and END,
+           or A <id> none *)
+let qtok (v : q) : string =
+  if qeq_bool v !sentinel then "inf" else if qeq_bool v (qopp !sentinel) then "-inf" else string_of_q v
+let print_lp_block (name : string) (u : ulp) (cn : string list) =
+  let nc = List.length u.u_cols and nr = List.length u.u_rows in
+  Printf.printf "LP %s %s %d %d\n" name (if u.u_max then "MAX" else "MIN") nc nr;
+  List.iteri (fun j c ->
+    let nm = (match List.nth_opt cn j with Some s -> s | None -> Printf.sprintf "x%d" j) in
+    Printf.printf "COL %s %s %s %s\n" nm (qtok c.uc_obj) (qtok c.uc_lo) (qtok c.uc_up)) u.u_cols;
+  List.iteri (fun i r ->
+    let s = (match r.ur_sense with SL -> "L" | SG -> "G" | SE -> "E" | SR -> "R") in
+    Printf.printf "ROW r%d %s %s %s %d %s\n" i s (string_of_q r.ur_rhs) (qtok r.ur_range) (List.length r.ur_ent)
+      (String.concat " " (List.map (fun (k, v) -> Printf.sprintf "%d %s" (int_of_nat k) (string_of_q v)) r.ur_ent))) u.u_rows;
+  print_string "END\n"
+
 let expect ic tag = match next_tokens ic with
   | Some (t :: r) when t = tag -> r
   | _ -> failwith ("expected " ^ tag)
@@ -70,6 +89,38 @@ let () =
              | [] -> [] | _ -> failwith "trace arity" in
            let r = replay_trace algo (eb = "1") (trip rest) in
            Printf.printf "A %s %d %d %s\n" id (if r.r_rval then 1 else 0) (int_of_lpstat r.r_status) (string_of_exit r.r_exit)
+         | "xform", (kind :: xargs) ->
+           let hdr = (match next_tokens ic with Some h -> h | None -> failwith "eof") in
+           let (u, cn, _) = read_ulp ic hdr in
+           let zero = q_of_string "0" in
+           let n = List.length u.u_cols in
+           let res : (ulp * bool * q) option =
+             (match kind, xargs with
+              | "negobj", [] -> Some (neg_obj u, true, zero)
+              | "scalerow", [ i; l ] ->
+                (match scale_row_lp !sentinel (nat_of_int (int_of_string i)) (q_of_string l) u with Some u' -> Some (u', false, zero) | None -> None)
+              | "duprow", [ i ] -> Some (dup_row (nat_of_int (int_of_string i)) u, false, zero)
+              | "redundant", [ i; d ] ->
+                if int_of_string i < List.length u.u_rows then Some (add_redundant (nat_of_int (int_of_string i)) (q_of_string d) u, false, zero) else None
+              | "spliteq", [ i ] -> Some (split_eq (nat_of_int (int_of_string i)) u, false, zero)
+              | "permrows", p ->
+                let p = List.map (fun s -> nat_of_int (int_of_string s)) p in
+                if is_perm (nat_of_int (List.length u.u_rows)) p then Some (perm_rows p u, false, zero) else None
+              | "subst", at ->
+                let rec split = function a :: t :: r -> let (al, tl) = split r in (q_of_string a :: al, q_of_string t :: tl) | [] -> ([], []) | _ -> failwith "subst arity" in
+                let (al, tl) = split at in
+                (match subst_vars !sentinel al tl u with
+                 | Some u' ->
+                   (* b = - sum_j c_j t_j  (value map of subst_vars_equiv) *)
+                   let b = List.fold_left2 (fun acc c t -> rsub acc (rmul c.uc_obj t)) zero u.u_cols tl in
+                   ignore n; Some (u', false, b)
+                 | None -> None)
+              | _ -> failwith "unknown xform") in
+           (match res with
+            | None -> Printf.printf "A %s none\n" id
+            | Some (u', neg, b) ->
+              Printf.printf "A %s ok %d %s %d %d\n" id (if neg then 1 else 0) (string_of_q b) (List.length u'.u_cols) (List.length u'.u_rows);
+              print_lp_block "t" u' cn)
          | "kkt", [ sem ] ->
            let hdr = (match next_tokens ic with Some h -> h | None -> failwith "eof") in
            let (p, _) = read_ilp ic hdr in
